@@ -36,6 +36,7 @@ m = {
         {"name": "E1 symx", "path": "/verif/vf/symx.py", "kind_free_text": "lifted execution of the real qp.math code over polynomial terms; identities/inequalities decided by z3 QF_NRA", "serves_properties": sorted(c['property_id'] for c in CHECKS if c.get('engine','E1').startswith('E1'))},
         {"name": "E2 crosshair", "path": "/verif/vf/chrun.py", "kind_free_text": "CrossHair (z3) symbolic execution of pure-Python integer/structural code against reference contracts", "serves_properties": sorted(c['property_id'] for c in CHECKS if c.get('engine','').startswith('E2'))},
         {"name": "E3 rev", "path": "/verif/vf/rev.py", "kind_free_text": "reversible-circuit to SMT (Bool/bit-vector) translation of real decompositions", "serves_properties": sorted(c['property_id'] for c in CHECKS if c.get('engine','').startswith('E3'))},
+        {"name": "E5 symbit", "path": "/verif/vf/symbit.py", "kind_free_text": "lifted execution of integer/bit code over z3 Bool/Int terms in numpy object arrays, fork-on-bool through the solver", "serves_properties": sorted(c['property_id'] for c in CHECKS if c.get('engine','').startswith('E5'))},
         {"name": "E4 mcm", "path": "/verif/vf/mcm.py", "kind_free_text": "measurement-branch interpreter on E1 values", "serves_properties": sorted(c['property_id'] for c in CHECKS if c.get('engine','').startswith('E4'))},
     ],
     "checks": checks,
